@@ -23,19 +23,20 @@ const Mod = "github.com/git-lfs/git-lfs/v3"
 
 // Prog is the loaded, type-checked program in SSA form.
 type Prog struct {
-	Dir     string
-	Fset    *token.FileSet
-	Pkgs    []*packages.Package
-	byPath  map[string]*packages.Package
-	SSA     *ssa.Program
-	ssaPkg  map[string]*ssa.Package
-	cg      *callgraph.Graph
-	allFns  map[*ssa.Function]bool
-	GOOS    string
-	GOARCH  string
-	srcFns  []*ssa.Function // functions with syntax inside the repo module (incl. anonymous)
-	fieldSt map[string][]ssa.Value
-	fileAST map[string]*ast.File
+	Dir          string
+	Fset         *token.FileSet
+	Pkgs         []*packages.Package
+	byPath       map[string]*packages.Package
+	SSA          *ssa.Program
+	ssaPkg       map[string]*ssa.Package
+	cg           *callgraph.Graph
+	allFns       map[*ssa.Function]bool
+	GOOS         string
+	GOARCH       string
+	srcFns       []*ssa.Function // functions with syntax inside the repo module (incl. anonymous)
+	fieldSt      map[string][]ssa.Value
+	fileAST      map[string]*ast.File
+	overlayFiles map[string][]byte
 }
 
 // LoadOpts selects platform and overlays.
@@ -97,7 +98,7 @@ func Load(o LoadOpts) (*Prog, error) {
 	if len(pkgs) < 25 {
 		return nil, fmt.Errorf("only %d packages loaded from %s (expected >= 25)", len(pkgs), o.Dir)
 	}
-	p := &Prog{Dir: o.Dir, Pkgs: pkgs, byPath: map[string]*packages.Package{}, ssaPkg: map[string]*ssa.Package{}, GOOS: o.GOOS, GOARCH: o.GOARCH, fileAST: map[string]*ast.File{}}
+	p := &Prog{overlayFiles: o.Overlay, Dir: o.Dir, Pkgs: pkgs, byPath: map[string]*packages.Package{}, ssaPkg: map[string]*ssa.Package{}, GOOS: o.GOOS, GOARCH: o.GOARCH, fileAST: map[string]*ast.File{}}
 	if len(pkgs) > 0 {
 		p.Fset = pkgs[0].Fset
 	}
